@@ -487,9 +487,12 @@ class HierDictDocument(DictDocument):
         if self.ignore_wrappers:
             ti = getattr(cls, '_type_info', {})
 
-            while cls.Attributes._wrapper and len(ti) == 1:
+            while cls.Attributes._wrapper and len(ti) == 1 \
+                                       and not cls.Attributes.max_occurs > 1:
                 # Wrappers are auto-generated objects that have exactly one
-                # child type.
+                # child type. When the wrapper is the item type of a sequence
+                # (an array of arrays), the instance is the sequence of wrapper
+                # instances: its items get unwrapped one by one further below.
                 key, = ti.keys()
                 if not issubclass(cls, Array):
                     inst = getattr(inst, key, None)
